@@ -157,14 +157,25 @@ def make_api(it, session: Session):
         m = it.import_module(module)
         with open(it.sources[module]) as f:
             tree = _ast.parse(f.read())
-        body = slices.select(tree, qualname, if_test, nth)
-        items = slices.keep_statements(body, set(it.iterate(keep)), capture)
         vars_ = {kk: vv for kk, vv in it.dict_items(env0)}
+        keep_names = set(it.iterate(keep))
+        try:
+            body = slices.select(tree, qualname, if_test, nth)
+            items = slices.keep_statements(body, keep_names, capture, tuple(vars_))
+        except slices.SliceMismatch as e:
+            raise Unsupported("harness does not match the source: %s" % e)
         env = Env(vars_, None, m.ns)
         tests, captured = [], []
         for kind, node in items:
             if kind == "stmt":
-                it.exec_stmt(node, env)
+                try:
+                    it.exec_stmt(node, env)
+                except PyRaise as e:
+                    cn = getattr(getattr(e, "exc", None), "cls", None)
+                    cn = getattr(cn, "qualname", "") or getattr(cn, "name", "")
+                    if cn.split(".")[-1] in ("NameError", "AttributeError", "UnboundLocalError"):
+                        raise Unsupported("harness does not match the source: sliced statement `%s` needs dropped context" % _ast.unparse(node)[:80])
+                    raise
             else:
                 # tests / captured values that need dropped context (ParseResults tokens) are recorded as None
                 try:
@@ -178,7 +189,18 @@ def make_api(it, session: Session):
         it.dict_set(out, "__tests__", tests)
         it.dict_set(out, "__captured__", captured)
         it.dict_set(out, "__n_statements__", len([1 for kind, _ in items if kind == "stmt"]))
+        for kn in keep_names:
+            if kn not in vars_:
+                raise Unsupported("harness does not match the source: the slice does not define `%s`" % kn)
         return out
+
+    @reg("require")
+    def require(it_, a, k):
+        what, cond = a
+        t = ops.truth(it, cond, "require")
+        if not t:
+            raise Unsupported("harness does not match the source: %s" % (what,))
+        return None
 
     @reg("all_of")
     def all_of(it_, a, k):
@@ -265,11 +287,14 @@ def make_api(it, session: Session):
         elif tag == "enum":
             out.append((path, ir.bconst(x[1:] == y[1:])))
         elif tag == "obj":
-            if x[1] != y[1] or x[2] != y[2] or set(x[3]) != set(y[3]) or (x[4] is None) != (y[4] is None):
+            if x[1] != y[1] or x[2] != y[2] or (x[4] is None) != (y[4] is None):
                 out.append((path, ir.FALSE))
                 return
+            for f in sorted(set(x[3]) ^ set(y[3])):
+                out.append((path + "." + f, ir.FALSE))          # attribute present on one side only: named, so that it can be classified
             for f in x[3]:
-                diff(x[3][f], y[3][f], path + "." + f, out)
+                if f in y[3]:
+                    diff(x[3][f], y[3][f], path + "." + f, out)
             if x[4] is not None:
                 if len(x[4]) != len(y[4]):
                     out.append((path + "[]", ir.FALSE))
